@@ -16,13 +16,18 @@ type ID uint64
 type URI string
 
 // URI check regular expressions
+//
+// In the loose checks a URI component may not contain white space. \s only
+// covers the ASCII characters [\t\n\f\r ], so vertical tab, NEL (U+0085) and
+// the Unicode separators (\pZ: no-break space, line and paragraph separator,
+// ...) are excluded explicitly.
 var (
 	// loose URI check disallowing empty URI components
-	looseURINonEmpty = regexp.MustCompile(`^([^\s\.#]+\.)*([^\s\.#]+)$`)
+	looseURINonEmpty = regexp.MustCompile(`^([^\s\v\x{85}\pZ\.#]+\.)*([^\s\v\x{85}\pZ\.#]+)$`)
 	// loose URI check disallowing empty URI components in all but the last
-	looseURILastEmpty = regexp.MustCompile(`^([^\s\.#]+\.)*([^\s\.#]*)$`)
+	looseURILastEmpty = regexp.MustCompile(`^([^\s\v\x{85}\pZ\.#]+\.)*([^\s\v\x{85}\pZ\.#]*)$`)
 	// loose URI check allowing empty URI components
-	looseURIEmpty = regexp.MustCompile(`^(([^\s\.#]+\.)|\.)*([^\s\.#]+)?$`)
+	looseURIEmpty = regexp.MustCompile(`^(([^\s\v\x{85}\pZ\.#]+\.)|\.)*([^\s\v\x{85}\pZ\.#]+)?$`)
 	// strict URI check disallowing empty URI components
 	strictURINonEmpty = regexp.MustCompile(`^([0-9a-z_]+\.)*([0-9a-z_]+)$`)
 	// strict URI check disallowing empty URI components in all but the last
